@@ -40,12 +40,14 @@ type RealmCfg struct {
 	Users             []UserCfg `json:"users,omitempty"`
 	Authz             *AuthzCfg `json:"authorizer,omitempty"`
 	History           []HistCfg `json:"history,omitempty"`
+	CookieAuth        bool      `json:"cookie_auth,omitempty"` // key stores recognise clients by tracking cookie (auth.BypassKeyStore)
 }
 
 type UserCfg struct {
 	AuthID string `json:"authid"`
 	Role   string `json:"role"`
 	Secret string `json:"secret,omitempty"`
+	NoRole bool   `json:"norole,omitempty"` // the key store has a key but no role for this user
 }
 
 type HistCfg struct {
@@ -80,6 +82,8 @@ type SessCfg struct {
 	NoJoin    bool                `json:"nojoin,omitempty"` // do not join in the prologue; a "join" op does it
 	Rewrite   bool                `json:"rewrite,omitempty"` // in-process session that rewrites every EVENT/INVOCATION the moment it is handed over (robustness checks only)
 	TransportAuth bool            `json:"transport_auth,omitempty"` // attach with transport details carrying auth data (websocket)
+	Cookie        string          `json:"cookie,omitempty"`         // tracking cookie the websocket request carried
+	NextCookie    string          `json:"nextcookie,omitempty"`     // tracking cookie the server hands out for next time
 	RecvLimit int                 `json:"recv_limit,omitempty"`     // server-side rawsocket receive limit
 	Serializer string             `json:"serializer,omitempty"`     // serializer of the server side for raw websocket links
 }
